@@ -240,6 +240,10 @@ func BuildRoutes(c *core.Ctx) (*pipe.Corpus, error) {
 	return corpus, nil
 }
 
+// Note on names: pipe.Build removes stale corpora by the prefix "<family>-", so a family name
+// must not extend another family's name ("l1p-single-iso" would be deleted whenever
+// "l1p-single" is rebuilt); the isolated families are named "iso-...".
+
 // ValidationIsolated is the body-located part of the validation family packed one method per
 // design. goa's OpenAPI 3 builder names one schema per structural hash, so in the shared
 // validation corpora (eight methods per service, all with a body {aa: T}) most operations are
@@ -254,7 +258,7 @@ func ValidationIsolated(side string, thorough bool) check.Family {
 			cases = append(cases, mc)
 		}
 	}
-	return check.Family{Name: "val-" + side[:1] + "-iso-" + tierName(thorough), Cases: cases, PerService: 1, PerDesign: 1}
+	return check.Family{Name: "iso-val-" + side[:1] + "-" + tierName(thorough), Cases: cases, PerService: 1, PerDesign: 1}
 }
 
 // SingleIsolated is the body-located part of the type x requiredness singles, one method per
@@ -267,7 +271,7 @@ func SingleIsolated(side string) check.Family {
 			cases = append(cases, mc)
 		}
 	}
-	return check.Family{Name: "l1" + side[:1] + "-single-iso", Cases: cases, PerService: 1, PerDesign: 1}
+	return check.Family{Name: "iso-l1" + side[:1] + "-single", Cases: cases, PerService: 1, PerDesign: 1}
 }
 
 var _ = strings.HasPrefix
